@@ -352,7 +352,7 @@ CONFIG = {
     "post_model": _c15_vm_sample,
     "timeout_search": 1500,
     "assumptions": [
-        "net/url is MODELLED on byte strings for a judged subset (Model/PagingUrl.v: Parse of a reference incl. scheme detection, first-segment-colon and bad-escape errors, host[:port] authorities, ResolveReference with Go 1.26 dot-segment removal, re-parse by http.NewRequest; fragments, user info, valid %-escapes or exotic bytes in a path, non-ASCII, opaque URLs are UNJUDGED) and compared with the real client on every followed link (raw path + raw query, byte for byte) and on random references; the association-list theorems (C15_exactly_once ...) still quantify over an abstract `render`/`resolve`, connected to the string level by C15_next_request_link_forms (forms </p?q>, <?q>, <http://h/p?q>, <//h/p?q>) and C15_next_request_dot_relative (<./seg?q>), C15_step_simulation and the all-histories refinement C15_string_loop_refines (hypotheses: the server answers indistinguishable requests alike; net/url-as-modelled and the abstract resolver agree on the links served)",
+        "net/url is MODELLED on byte strings for a judged subset (Model/PagingUrl.v: Parse of a reference incl. scheme detection, first-segment-colon and bad-escape errors, host[:port] authorities, ResolveReference with Go 1.26 dot-segment removal, re-parse by http.NewRequest; fragments, user info, valid %-escapes or exotic bytes in a path, non-ASCII, opaque URLs are UNJUDGED) and compared with the real client on every followed link (raw path + raw query, byte for byte) and on random references; the association-list theorems (C15_exactly_once ...) still quantify over an abstract `render`/`resolve`, connected to the string level by C15_next_request_link_forms (forms </p?q>, <?q>, <http://h/p?q>, <//h/p?q>) and C15_next_request_dot_relative (<./seg?q>), C15_step_simulation and the all-histories refinement C15_string_loop_refines (hypotheses: the server answers indistinguishable requests alike; net/url-as-modelled and the abstract resolver agree on the links served); since the second extension round qset appends a replaced parameter at the end exactly like setQueryParams, so the typed reading (n as a number, lenient url.Values parse) of the raw request is literally the model's request (C15_request_query_exact), and C15_string_loop_exact gives the all-histories refinement WITHOUT the 'answers alike' hypothesis for any registry that is fed that typed reading (it may echo every parameter into its links); the concrete theorems C15_exactly_once_concrete_forms / C15_filter_concrete_forms let the registry choose per answer among the five link forms </p?q>, <?q>, <http://host/p?q>, <//host/p?q>, <./last?q>",
         "encoding/json: WHERE the first value of the stream ends is modelled (Model/PagingJson.v scan: brackets counted outside strings, leading white space) and compared with json.Decoder.InputOffset on generated valid object/array documents, all their prefixes, documents followed by more input, and on the bodies of the listings themselves (the declared document length = the decoder's = the scanner's); the self-delimiting property is a THEOREM of that scanner (C15_json_self_delimiting, C15_limit_bytes_scan: behind limitReader a document is decoded completely when it fits, not at all otherwise); the grammar inside the brackets and the mapping to Go values (which items a document decodes to, `null`, ill-typed fields) stay declared by the generator (well-formed?, decoded items)",
         "queries: the association-list model (url.Values.Set = replace) is refined by the string model of setQueryParams / QueryEscape / QueryUnescape (C15_set_query_params_verbatim, _read, C15_request_query_refines: for every key a registry looks up it reads what the association-list request says; lookup = first match of a lenient parse, as fakereg.ParseQueryLenient); bytes are < 256; the pre-fix lossy url.Values round trip is kept as mk_request_prefix (C15_lossy_query_refuted)",
         "the registry model's meaning of `last`: items after the entry named last; an unknown name is placed before the first greater item (= all greater items on a sorted registry, C15_last_on_sorted_registry); item names are non-empty and distinct",
